@@ -139,6 +139,11 @@ def oracle(ctx):
         for n in ('00-baddrop.container', 'zz-baddrop.container'):
             extra['d0/' + n] = '[Container]\nImage=localhost/baddrop\n'
             extra['d0/' + n + '.d/bad.conf'] = rnd.choice(['no equals sign\n', '[Unterminated\n', 'Key=before any section\n'])
+            # … and around it drop-ins that load: one that sorts before it, one that sorts after it
+            if rnd.random() < 0.7:
+                extra['d0/' + n + '.d/zz-after.conf'] = '[Container]\nLabel=after=1\n'
+            if rnd.random() < 0.5:
+                extra['d0/' + n + '.d/00-before.conf'] = '[Container]\nLabel=before=1\n'
         # files that cannot be read at all: a dangling symbolic link and a directory named like a unit
         if rnd.random() < 0.5:
             extra['d0/zz-ghost.container'] = ('link', 'no-such-target')
@@ -192,6 +197,9 @@ def oracle(ctx):
                 fails.append(f'the failure of {b} is not logged with its path: {e2e.error_lines(r0[2])}')
         if r1[0] != 1:
             fails.append(f'exit status {r1[0]} although units with malformed drop-ins were added')
+        for nb in ('00-baddrop.container', 'zz-baddrop.container'):
+            if not any('ERROR' in l and nb in l for l in r1[2].split('\n')):
+                fails.append(f'the drop-in of {nb} that cannot be loaded is not reported (it has a loadable drop-in that sorts after it: every file counts): {e2e.error_lines(r1[2])[:6]}')
         for ghost in ('zz-ghost.container', 'zz-isdir.volume'):
             if 'd0/' + ghost in v[1] and not any('ERROR' in l and ghost in l for l in r1[2].split('\n')):
                 fails.append(f'{ghost} cannot be read but no error names it: {e2e.error_lines(r1[2])[:6]}')
